@@ -70,12 +70,96 @@ func t1Budget(rtoMax time.Duration) time.Duration {
 	return total + slack
 }
 
+// c04Sweep: the systematic leg. The run's index (seed - sweep_base) is decoded into one cell of
+//   {client/server, server/client, client/client} x interleaving A,B x zero-checksum A,B   (48 configurations)
+//   x every placement of at most k faults from {drop, duplicate, delay past the next retransmission,
+//     swap with successor} on the first n packets of each direction,
+// so that a batch of consecutive seeds as large as the space covers every cell exactly once. The
+// remaining dimensions (MTU, buffers, RTO.max, latency, initial TSNs, schedule) stay seeded.
+func c04SweepSize(n, k int) int {
+	P, A := 2*n, 4
+	total, c, a := 0, 1, 1
+	for j := 0; j <= k; j++ {
+		total += c * a
+		c = c * (P - j) / (j + 1)
+		a *= A
+	}
+	return total * 48
+}
+
+func c04SweepDecode(w *world, cfg *runConfig) {
+	n, k := w.params["sweep_n"], w.params["sweep_k"]
+	space := c04SweepSize(n, k)
+	idx := int(w.seed-uint64(w.params["sweep_base"])) % space
+	if w.extra == nil {
+		w.extra = map[string]any{}
+	}
+	w.extra["sweep_index"], w.extra["sweep_space"] = idx, space
+	c := idx % 48
+	pl := idx / 48
+	roles := [][2]string{{"client", "server"}, {"server", "client"}, {"client", "client"}}[c%3]
+	c /= 3
+	for i := 0; i < 2; i++ {
+		cfg.Side[i].Role = roles[i]
+		cfg.Side[i].Interleaving = c&1 != 0
+		c >>= 1
+		cfg.Side[i].ZeroCRC = c&1 != 0
+		c >>= 1
+	}
+	// unrank the placement: number of faults first, then the position set, then the actions
+	P, A := 2*n, 4
+	cnt, comb, act := 0, 1, 1
+	j := 0
+	for ; j <= k; j++ {
+		cnt = comb * act
+		if pl < cnt {
+			break
+		}
+		pl -= cnt
+		comb = comb * (P - j) / (j + 1)
+		act *= A
+	}
+	actions := pl % act
+	set := pl / act
+	// the set-th j-subset of {0..P-1} in lexicographic order
+	var pos []int
+	x := 0
+	for r := j; r > 0; r-- {
+		for {
+			// subsets that start with x: C(P-x-1, r-1)
+			cc := 1
+			for t := 0; t < r-1; t++ {
+				cc = cc * (P - x - 1 - t) / (t + 1)
+			}
+			if set < cc {
+				break
+			}
+			set -= cc
+			x++
+		}
+		pos = append(pos, x)
+		x++
+	}
+	for t, q := range pos {
+		w.params[fmt.Sprintf("p%dd", t)] = q / n
+		w.params[fmt.Sprintf("p%di", t)] = q % n
+		w.params[fmt.Sprintf("p%da", t)] = 1 + actions%A
+		actions /= A
+	}
+	w.probe(fmt.Sprintf("sweep-faults-%d", j))
+}
+
 func scenarioHandshake(w *world) {
 	cfg := genConfig(w, cfgOpts{wrapBias: true, noFaults: true})
 	tp := w.wtape
 	mode := tp.intn(8)
 	if m, ok := w.params["c04_mode"]; ok {
 		mode = m
+	}
+	sweep := w.params["c04_sweep"] != 0
+	if sweep {
+		mode = tp.intn(4) // plain handshake, stale packets replayed afterwards
+		c04SweepDecode(w, cfg)
 	}
 	cfg.SNAP = mode == 6
 	w.setup(cfg)
@@ -167,7 +251,7 @@ func scenarioHandshake(w *world) {
 	lossPPM := uint32(pick(tp, 0, 100000, 300000, 600000))
 	dupPPM := uint32(pick(tp, 0, 0, 100000, 300000))
 	holdPPM := uint32(pick(tp, 0, 0, 200000))
-	if len(w.params) > 0 && w.params["p0a"] != 0 {
+	if len(w.params) > 0 && w.params["p0a"] != 0 || sweep {
 		lossPPM, dupPPM, holdPPM = 0, 0, 0 // planned faults only (sweep)
 	}
 	w.net.faultsOn = true
